@@ -326,26 +326,27 @@ class _Halting(object):
 class FakeStream(object):
   def __init__(self, pa, idx, kw):
     self._pa, self.idx, self.kw = pa, idx, kw
-    self._stream = ("handle", idx)      # what lazy_io passes to _portaudio.write_stream
+    self._env = pa._env
+    self._stream = ("handle", idx, pa._env)   # what lazy_io passes to _portaudio.write_stream
     self.open = True
-    self.written = []                   # list of bytes objects
+    self.written = []                         # (bytes, num_frames) per write
 
   def stop_stream(self):
     def act():
-      env().events.append(["stop", self.idx])
-    env().sched.op("stop_stream", act)
+      self._env.events.append(["stop", self.idx])
+    self._env.sched.op("stop_stream", act)
 
   def start_stream(self):
     def act():
-      env().events.append(["start", self.idx])
-    env().sched.op("start_stream", act)
+      self._env.events.append(["start", self.idx])
+    self._env.sched.op("start_stream", act)
 
   def close(self):
     def act():
-      env().events.append(["close", self.idx])
+      self._env.events.append(["close", self.idx])
       self.open = False
       self._pa._c17_streams.discard(self)
-    env().sched.op("close_stream", act)
+    self._env.sched.op("close_stream", act)
 
   def write(self, frames, num_frames=None, exception_on_underflow=False):
     _write_stream(self._stream, frames, num_frames, exception_on_underflow)
@@ -354,39 +355,40 @@ class FakeStream(object):
 class FakePyAudio(object):
   def __init__(self):
     self._c17_streams = set()
+    self._env = env()
 
   @property
   def _streams(self):
-    return env().sched.op("streams_read", lambda: set(self._c17_streams))
+    return self._env.sched.op("streams_read", lambda: set(self._c17_streams))
 
   def open(self, **kw):
     def act():
-      e = env()
+      e = self._env
       st = FakeStream(self, len(e.streams), kw)
       e.streams.append(st)
       self._c17_streams.add(st)
       e.events.append(["open", st.idx])
       return st
-    return env().sched.op("open", act)
+    return self._env.sched.op("open", act)
 
   def terminate(self):
     def act():
-      e = env()
+      e = self._env
       e.terminated += 1
       e.events.append(["terminate"])
-    env().sched.op("terminate", act)
+    self._env.sched.op("terminate", act)
 
   def get_host_api_count(self):
     return 0
 
 
 def _write_stream(handle, frames, num_frames, exception_on_underflow=False):
+  e = handle[2]
   def act():
-    e = env()
     st = e.streams[handle[1]]
     st.written.append((bytes(frames), num_frames))
     e.events.append(["write", st.idx, len(st.written) - 1])
-  env().sched.op("write", act)
+  e.sched.op("write", act)
 
 
 def make_fake_modules():
@@ -421,29 +423,35 @@ def install():
   AT, AIO = lazy_io.AudioThread, lazy_io.AudioIO
   AIO.__del__ = lambda self: None            # no close() from the garbage collector
   AT.halting = _Halting()
-  orig_run = AT.run
-  _installed["orig_run"] = orig_run
+  orig_run, orig_init = AT.run, AT.__init__
+
+  def __init__(self, *a, **kw):
+    # players are numbered in order of construction (before any yield point of the constructor)
+    e = env()
+    self.__dict__["_c17_env"] = e
+    e.players.append(self)
+    orig_init(self, *a, **kw)
 
   def start(self):
-    e = env()
+    e = self.__dict__["_c17_env"]
     def act():
       tid = len(e.sched.ctls)
-      self._c17_tid = tid
+      self.__dict__["_c17_tid"] = tid
       e.sched.start_thread(tid, lambda: _th.Thread.start(self))
     e.sched.op("start", act)
 
   def run(self):
-    e = env()
-    e.sched.thread_body(self._c17_tid, lambda: orig_run(self))
+    e = self.__dict__["_c17_env"]
+    e.sched.thread_body(self.__dict__["_c17_tid"], lambda: orig_run(self))
 
   def join(self, timeout=None):
-    e = env()
+    e = self.__dict__["_c17_env"]
     def en():
-      tid = getattr(self, "_c17_tid", None)
+      tid = self.__dict__.get("_c17_tid")
       return tid is not None and e.sched.ctls[tid].done
     e.sched.op("join", lambda: None, en)
 
-  AT.start, AT.run, AT.join = start, run, join
+  AT.__init__, AT.start, AT.run, AT.join = __init__, start, run, join
   _installed["ok"] = True
   _installed["lazy_io"] = lazy_io
   return lazy_io
@@ -452,10 +460,12 @@ def install():
 # ---------------------------------------------------------------------- one run
 def decode(b, dfmt):
   n = len(b) // _struct.calcsize(dfmt)
-  return [int(v) for v in _struct.unpack("%d%s" % (n, dfmt), b)]
+  vals = _struct.unpack("%d%s" % (n, dfmt), b)
+  assert all(v == int(v) for v in vals)
+  return [int(v) for v in vals]
 
 
-def run_schedule(wait, script, choose, dfmt="h", max_steps=4000):
+def run_schedule(wait, script, choose, dfmt="f", max_steps=4000):
   """Runs the control script [["play", chunk_size, channels, [samples]], ["pause", t], ["resume", t],
   ["stop", t], ["close"]] on a fresh AudioIO(wait) under the scheduler; `choose` picks the thread at
   every step.  Returns the observation (JSON-able)."""
@@ -468,44 +478,41 @@ def run_schedule(wait, script, choose, dfmt="h", max_steps=4000):
   main = sched.register(0, _th.get_ident())
   main.warm = True
 
+  def status_of(p):
+    tid = p.__dict__.get("_c17_tid")
+    return 0 if tid is None else (2 if sched.ctls[tid].done else 1)     # new / running / done
+
   def flags():
-    return [[bool(p.__dict__.get("_c17_tid") is not None and not sched.ctls[p._c17_tid].done
-                  and p.__dict__.get("_c17_tid") is not None),
-             bool(p.__dict__.get("_c17_halting", False))] for p in e.players]
+    return [[status_of(p) == 1, bool(p.__dict__.get("_c17_halting", False))] for p in e.players]
 
   def snapshot():
     pl = []
-    for k, p in enumerate(e.players):
-      tid = p.__dict__.get("_c17_tid")
-      status = 0 if tid is None else (2 if sched.ctls[tid].done else 1)   # new / running / done
+    for p in e.players:
       st = p.__dict__.get("stream")
       lk = p.__dict__.get("lock")
       go = p.__dict__.get("go")
-      pl.append({"status": status,
+      pl.append({"status": status_of(p),
                  "halting": bool(p.__dict__.get("_c17_halting", False)),
                  "go": bool(go._flag) if go is not None else False,
                  "tlock": bool(lk._locked) if lk is not None else False,
                  "open": bool(st.open) if st is not None else False,
                  "written": [decode(b, p.dfmt) for b, _ in st.written] if st is not None else [],
                  "nframes": [n for _, n in st.written] if st is not None else []})
-    pend = []
-    for c in sched.ctls:
-      pend.append(-1 if (c.done or c.pending is None) else OPCODE[c.pending[0]])
+    pend = [-1 if (c.done or c.pending is None) else OPCODE[c.pending[0]] for c in sched.ctls]
     return {"players": pl, "finished": bool(aio.finished), "hlock": bool(aio.halting._locked),
             "mlock": bool(aio.lock._locked),
             "threads": [e.players.index(t) for t in list.__iter__(aio._threads)],
             "terminated": e.terminated, "pending": pend}
 
   sched.on_end = snapshot
-  orig_init = lazy_io.AudioThread.__init__
 
   def driver():
     for cmd in script:
       k = cmd[0]
       if k == "play":
-        # the player object becomes known to the harness as soon as it exists (hook below)
         try:
-          aio.play(cmd[3], chunk_size=cmd[1], channels=cmd[2], dfmt=dfmt)
+          aio.play([float(v) for v in cmd[3]] if dfmt in "fd" else list(cmd[3]),
+                   chunk_size=cmd[1], channels=cmd[2], dfmt=dfmt)
         except _th.ThreadError:
           e.events.append(["play_raise"])
       elif k in ("pause", "resume", "stop"):
@@ -519,15 +526,6 @@ def run_schedule(wait, script, choose, dfmt="h", max_steps=4000):
         except AssertionError:
           e.events.append(["assert_fail"])
 
-  # AudioThread objects are numbered in order of construction (before any yield point of __init__)
-  import threading as real_threading
-  orig_thread_init = real_threading.Thread.__init__
-
-  def hooked_thread_init(self, *a, **kw):
-    orig_thread_init(self, *a, **kw)
-    if isinstance(self, lazy_io.AudioThread) and _env[0] is e:
-      e.players.append(self)
-  real_threading.Thread.__init__ = hooked_thread_init
   sched.active = True
   status_extra = None
   try:
@@ -536,11 +534,10 @@ def run_schedule(wait, script, choose, dfmt="h", max_steps=4000):
     except SchedAbort:
       pass
     except Exception as ex:                    # an exception the driver does not classify
-      status_extra = type(ex).__name__
+      status_extra = type(ex).__name__ + ": " + str(ex)[:200]
       sched._end("exception")
     sched.main_finished()
   finally:
-    real_threading.Thread.__init__ = orig_thread_init
     sched.active = False
     sched.aborting = True
     for c in sched.ctls:
